@@ -17,8 +17,9 @@ def run_history(req):
     for op in req['ops']:
         if op['op'] == 'battery':
             try:
-                with time_limit(30):
-                    results.append({'battery': c12_ops.battery(runner), 'state': runner.state()})
+                with time_limit(60):
+                    fn = c12_ops.battery_isolated if req.get('isolated') else c12_ops.battery
+                    results.append({'battery': fn(runner), 'state': runner.state()})
             except TimeLimit:
                 results.append({'battery': ['TIMEOUT'], 'state': runner.state()})
             continue
